@@ -69,6 +69,8 @@ def _mesh_world(cells, edge_mode, rng=None, mesh=None) -> dict:
         enc = {"edge_dim": "implied", "supplied": ["en"]}
     elif edge_mode == "declared":
         enc = {"edge_dim": "declared", "supplied": ["en"]}
+    elif edge_mode == "implied-coords":      # the edge table is flagged as a coordinate variable; nothing declares the dimension
+        enc = {"edge_dim": "implied", "supplied": ["en"], "conn_as_coords": ["Mesh2_edge_nodes"]}
     elif edge_mode == "declared-transposed":      # connectivity stored (Two, edge): only the attribute names the edge dimension
         enc = {"edge_dim": "declared", "supplied": ["en"], "transposed": True}
     w = W.counts_world("ugrid", nface=len(m["faces"]), nnode=len(m["nodes"]),
@@ -98,7 +100,7 @@ def cases(tier: str, seed: int) -> list[dict]:
     # meshes of the lattice family, each with the three edge-dimension modes
     fam = [[["Q"]], [["A"]], [["Q", "B"]], [["Q", "A"], ["N", "Q"]], [["A", "B"], ["B", "Q"]], [["H", "h"], ["Q", "N"]]]
     for cells in fam:
-        for mode in ("absent", "implied", "declared", "declared-transposed"):
+        for mode in ("absent", "implied", "declared", "declared-transposed", "implied-coords"):
             w = _mesh_world(cells, mode)
             out.append({"src": "mc", "w": w, "events": _events(w, MARGIN)})
     # seeded larger scenarios outside the TLC universe
